@@ -172,3 +172,9 @@ pub enum Error {
     /// Failed to perform HPACK decoding
     Hpack(hpack::DecoderError),
 }
+
+#[cfg(feature = "verif")]
+#[allow(missing_docs, dead_code, unused_imports)]
+pub(crate) mod verif_h {
+    include!(concat!(env!("H2_VERIF_DIR"), "/harness/frame/mod.rs"));
+}
